@@ -351,7 +351,10 @@ Definition rw_apply (uri : bytes) (d : option bytes) : rwres :=
         | Some _ => RwUnsupported                           (* redirect replies are not part of the scenarios *)
         | None => match find_note k_rewrite_url notes' with
                   | Some u => if list_eqb u uri then RwSame
-                              else if plausible_url u then RwTo u else RwSame
+                              else
+                                (* AnyP::Uri::parse with the default "uri_whitespace strip": blanks are removed *)
+                                let u' := filter (fun c => negb (isspace c)) u in
+                                if plausible_url u' then RwTo u' else RwSame
                   | None => RwSame
                   end
         end in
